@@ -47,6 +47,7 @@ def _backward_edge_average(
     config: SimulationConfig | None,
     axis: int,
     region_slice: SliceTuple3D | None = None,
+    periodic_axes: tuple[bool, bool, bool] | None = None,
 ) -> jax.Array:
     """Interpolate center-staggered samples back to an edge on a rectilinear grid.
 
@@ -61,6 +62,8 @@ def _backward_edge_average(
         axis: Grid axis along which the interpolation is performed.
         region_slice: Grid slice ``((x0, x1), (y0, y1), (z0, z1))`` covered by the inputs
             when they are a sub-block of the domain. The cell widths are sliced to match.
+        periodic_axes: Axes whose min-side halo wraps around; the cell behind the first
+            one is then the last cell instead of a replica of the first.
 
     Returns:
         Edge-interpolated samples of the same shape as ``current``.
@@ -71,7 +74,8 @@ def _backward_edge_average(
     grid = config.resolved_grid
     assert grid is not None
     widths = grid.cell_widths(axis)
-    previous_widths = jnp.concatenate([widths[:1], widths[:-1]])
+    wraps = periodic_axes is not None and periodic_axes[axis]
+    previous_widths = jnp.concatenate([widths[-1:] if wraps else widths[:1], widths[:-1]])
     if region_slice is not None:
         start, stop = region_slice[axis]
         widths = widths[start:stop]
@@ -90,6 +94,7 @@ def interpolate_fields(
     H_pad: jax.Array,
     config: SimulationConfig | None = None,
     region_slice: SliceTuple3D | None = None,
+    periodic_axes: tuple[bool, bool, bool] | None = None,
 ) -> tuple[jax.Array, jax.Array]:
     """Interpolates E and H fields onto the E_z Yee grid point (i, j, k+½).
 
@@ -115,6 +120,8 @@ def interpolate_fields(
         region_slice: Grid slice ``((x0, x1), (y0, y1), (z0, z1))`` covered by the inputs
             when they are a haloed sub-block of the domain instead of the whole padded
             domain. The interpolation weights are sliced to match.
+        periodic_axes: Axes whose min-side halo wraps around (periodic / Bloch boundaries), so the
+            weights at the first cell use the last cell's width on a stretched grid.
 
     Returns:
         Tuple of (E_interp, H_interp), each of shape (3, Nx, Ny, Nz)
@@ -129,6 +136,7 @@ def interpolate_fields(
         config=config,
         axis=0,
         region_slice=region_slice,
+        periodic_axes=periodic_axes,
     )
     E_x_upper_z = _backward_edge_average(
         current=E_x[1:-1, 1:-1, 2:],
@@ -136,6 +144,7 @@ def interpolate_fields(
         config=config,
         axis=0,
         region_slice=region_slice,
+        periodic_axes=periodic_axes,
     )
     E_x = (E_x_lower_z + E_x_upper_z) / 2.0
 
@@ -146,6 +155,7 @@ def interpolate_fields(
         config=config,
         axis=1,
         region_slice=region_slice,
+        periodic_axes=periodic_axes,
     )
     E_y_upper_z = _backward_edge_average(
         current=E_y[1:-1, 1:-1, 2:],
@@ -153,6 +163,7 @@ def interpolate_fields(
         config=config,
         axis=1,
         region_slice=region_slice,
+        periodic_axes=periodic_axes,
     )
     E_y = (E_y_lower_z + E_y_upper_z) / 2.0
 
@@ -166,6 +177,7 @@ def interpolate_fields(
         config=config,
         axis=1,
         region_slice=region_slice,
+        periodic_axes=periodic_axes,
     )
 
     # H_y: (i+½, j, k+½) → (i, j, k+½): x backward only
@@ -175,6 +187,7 @@ def interpolate_fields(
         config=config,
         axis=0,
         region_slice=region_slice,
+        periodic_axes=periodic_axes,
     )
 
     # H_z: (i+½, j+½, k) → (i, j, k+½): x backward, y backward, z forward
@@ -184,6 +197,7 @@ def interpolate_fields(
         config=config,
         axis=0,
         region_slice=region_slice,
+        periodic_axes=periodic_axes,
     )
     H_z_lower_z_xy = _backward_edge_average(
         current=H_z_lower_z_x,
@@ -193,10 +207,12 @@ def interpolate_fields(
             config=config,
             axis=0,
             region_slice=region_slice,
+            periodic_axes=periodic_axes,
         ),
         config=config,
         axis=1,
         region_slice=region_slice,
+        periodic_axes=periodic_axes,
     )
     H_z_upper_z_x = _backward_edge_average(
         current=H_z[1:-1, 1:-1, 2:],
@@ -204,6 +220,7 @@ def interpolate_fields(
         config=config,
         axis=0,
         region_slice=region_slice,
+        periodic_axes=periodic_axes,
     )
     H_z_upper_z_xy = _backward_edge_average(
         current=H_z_upper_z_x,
@@ -213,10 +230,12 @@ def interpolate_fields(
             config=config,
             axis=0,
             region_slice=region_slice,
+            periodic_axes=periodic_axes,
         ),
         config=config,
         axis=1,
         region_slice=region_slice,
+        periodic_axes=periodic_axes,
     )
     H_z = (H_z_lower_z_xy + H_z_upper_z_xy) / 2.0
 
